@@ -1,4 +1,4 @@
-HOOK_COMMITS = ["64417067"]
+HOOK_COMMITS = ["64417067", "92b79788"]
 
 _BP_NOTE = ("Trusted: Coq 8.16.1 kernel + vm_compute; no axioms (Print Assumptions: closed under the global context); the Go harness and "
             "the verif hooks; Go channel/select/mutex/semaphore/timer semantics and pdata container operations are modelled as atomic "
@@ -66,6 +66,13 @@ TEXTS = {
              "and boundary histories (result class per batch), which is also where the four defects repaired by fix: commits were exhibited.",
         design_ref="DESIGN.md 6/C08", note="Trusted: Coq kernel + vm_compute; no axioms; go/ast extractor; Go harness. The field-discovery pass bound is an assumption validated by the runs.",
         technique="Coq proof (termination measure of the retry loop) + generated panic-site obligation + result-class correspondence"),
+    "C07": dict(
+        text="Theorems over the model of Consumer.Consume and the payload dispatch, for EVERY consumer state, payload list and answer of the IPC library: no panic; success-with-nothing only "
+             "when no main record was read; a well-formed batch is decoded. Partial: library behaviour on damaged bytes is a quantified input, not modelled. Tied by running the real consumer on "
+             "valid prefixes followed by systematically altered batches, feeding the library answers logged by the hook to the model and comparing verdicts; this exhibited the three defects "
+             "repaired by fix: commits (dropped error, nil reader, exp-histogram optional columns).",
+        design_ref="DESIGN.md 6/C07", note="Trusted: Coq kernel + vm_compute; no axioms; Go harness + verif hook in consumer.go; arrow-go reader behaviour is an input.",
+        technique="Coq proof (total model of the stream-table and dispatch logic) + fault-injection differential"),
 }
 
 NOT_APPLICABLE = []
